@@ -1,0 +1,14 @@
+//go:build verif
+
+// Package tsx re-exports, for the external verification harness only (build tag "verif"), the
+// time-stamper hooks of internal/signinit, which cannot be imported from another module.
+// Add-only; not compiled into normal builds.
+package tsx
+
+import "github.com/sassoftware/relic/v8/internal/signinit"
+
+// ResetTimestamper is signinit.VerifResetTimestamper.
+func ResetTimestamper() { signinit.VerifResetTimestamper() }
+
+// HaveTimestamper is signinit.VerifHaveTimestamper.
+func HaveTimestamper() bool { return signinit.VerifHaveTimestamper() }
